@@ -34,6 +34,7 @@ def setup(v, option):
     ids = {name: typ for (typ, dt, name, off, offN, esz) in rows}
     END = ids["end"]
     wall = [typ for (typ, dt, name, off, offN, esz) in rows if name.startswith("walltime")]
+    names = {typ: name for (typ, dt, name, off, offN, esz) in rows}
     size1, size2 = v.int("size1"), v.int("size2")
     b1 = eng.new_bytebuf(v.st, "buf1", size1)
     b2 = eng.new_bytebuf(v.st, "buf2", size2)
@@ -86,8 +87,12 @@ def setup(v, option):
         a, b = args[0], args[1]
         if isinstance(a, Opaque) and a.what == "fdname" and isinstance(b, Opaque) and b.what == "str":
             lit = (b.tag or "").strip('"')
-            if len(args) == 3:          # strncmp(name, "walltime", 8)
-                match = z3.Or(*[a.tag == w for w in wall]) if lit == "walltime" else None
+            if len(args) == 3:          # strncmp(name, "walltime", 8): the descriptors whose first n characters are those of lit
+                nn = const_int(args[2])
+                if nn is None:
+                    raise Unsupported("strncmp with a symbolic length")
+                hit = [typ for typ, nm in names.items() if (nm + "\0")[:nn] == (lit + "\0")[:nn]]
+                match = z3.Or(*[a.tag == w for w in hit]) if hit else z3.BoolVal(False)
             else:
                 match = (a.tag == ids[lit]) if lit in ids else None
             if match is None:
@@ -95,6 +100,15 @@ def setup(v, option):
             return z3.If(match, z3.IntVal(0), z3.IntVal(1))
         raise Unsupported("strcmp %r %r" % (a, b))
     v.st.ghost["strcmp"] = strcmp
+
+    def strstr(eng_, st, args):
+        a, b = args[0], args[1]
+        if isinstance(a, Opaque) and a.what == "fdname" and isinstance(b, Opaque) and b.what == "str":
+            lit = (b.tag or "").strip('"')
+            hit = [typ for typ, nm in names.items() if lit in nm]
+            return z3.Or(*[a.tag == w for w in hit]) if hit else z3.BoolVal(False)
+        raise Unsupported("strstr %r %r" % (a, b))
+    v.st.ghost["strstr"] = strstr
     bufp, bufpp = v.cell("char*", "outbuf", value=Ptr(None, (), True))
     sizep, sizepp = v.cell("unsigned long", "outsize", value=z3.IntVal(0))
     return dict(b1=b1, b2=b2, size1=size1, size2=size2, T=T, S=S, B=B, END=END, wall=wall, ids=ids, bufpp=bufpp, sizepp=sizepp)
